@@ -41,13 +41,21 @@ def c09_1(ctx):
     # what is hashed is the payload without the checksum, and what is returned is that payload
     cfg = cfg_of(fn)
     for n in cfg.returns():
-        v = n.ast.value
+        v0 = n.ast.value
+        v = expand(fn, n.id, v0, depth=2) if isinstance(v0, ast.Name) else v0
         if isinstance(v, ast.Subscript) and ast.unparse(v.slice) == ":-4":
-            out.append(ctx.ok(spec, "returns the decoded bytes without the checksum", v, mod, key="payload"))
+            out.append(ctx.ok(spec, "returns the decoded bytes without the checksum", v0, mod, key="payload"))
+        elif isinstance(v, ast.Subscript):
+            out.append(ctx.bad(spec, "returns `%s`, expected the decoded bytes minus the trailing 4-byte checksum" % ast.unparse(v), v0, mod, key="payload"))
         else:
-            out.append(ctx.bad(spec, "returns `%s`, expected the decoded bytes minus the trailing 4-byte checksum" % ast.unparse(v), v, mod, key="payload"))
-    hs = [c for _, c in rl.find_calls(fn, "hash256")]
-    good = [c for c in hs if c.args and isinstance(c.args[0], ast.Subscript) and ast.unparse(c.args[0].slice) == ":-4"]
+            out.append(ctx.err(spec, "returned value `%s` not recognised as a slice of the decoded bytes" % ast.unparse(v), v0, mod))
+    hs = [(n_, c) for n_, c in rl.find_calls(fn, "hash256")]
+    good = []
+    for n_, c in hs:
+        a0 = c.args[0] if c.args else None
+        a0 = expand(fn, n_.id, a0, depth=2) if isinstance(a0, ast.Name) else a0
+        if isinstance(a0, ast.Subscript) and ast.unparse(a0.slice) == ":-4":
+            good.append(c)
     out.append(ctx.ok(spec, "the checksum is computed over the payload (all but the last 4 bytes)", good[0], mod, key="hashed-part") if good else
                ctx.bad(spec, "hash256 is not applied to the payload without its last 4 bytes", fn, mod, key="hashed-part"))
     # encoder side
